@@ -64,6 +64,47 @@ def job_structure(res, n, N, spacing, buckets):
         prove(res, 'n=%d N=%d buckets %s: WakePotentialMap::update copies the wake potential of bunch b, cell x into displacement row b*n+x (all %d)' % (n, N, list(buckets), nb * n), st2.pc,
               z3.Or(*[a != b for a, b in zip(kick, want)]), key='wake-kick-copy', cex_fn=cex)
 
+def job_exact(res, n, N):
+    """the same statement with FFTW's documented r2c/c2r written out exactly (N = 4, 8; one bunch in bucket 0): a model's profile is then a real profile, so a wakePotential() that decides
+    on the transform's values (drops small bins, stops early) gets a counterexample the native replay can reproduce.  Every path of the call is followed (DESIGN 9.21)."""
+    bld = field_build(); mod = load_module(bld, FIELD_MODS)
+    snap, R, pre, plans, calib = field_world(bld, n, N, 0, (0,))
+    ex = Exec(mod, snap, RealDom(), {'fftwf_execute': dft_exact(plans, (4, 8))}); st = State()
+    ex.unknown_is_feasible = True; ex.branch_timeout = 4000
+    RT = z3.Real('sqrt_half')
+    if N == 8: st.pc += [RT * RT == Fraction(1, 2), RT > 0]
+    P = sym_profiles(ex, st, R, n, 1); Z = sym_impedance(ex, st, R, N)
+    sc = ex.dom.z(ex.run1(st, 'e_wakescaling', [R['field']]).retval)
+    def tw(m):
+        m %= N
+        if N == 4: return {0: (1, 0), 1: (0, -1), 2: (-1, 0), 3: (0, 1)}[m]
+        return {0: (1, 0), 1: (RT, -RT), 2: (0, -1), 3: (-RT, -RT), 4: (-1, 0), 5: (-RT, RT), 6: (0, 1), 7: (RT, RT)}[m]
+    rho = P + [z3.RealVal(0)] * (N - n)
+    Y = []
+    for k in range(N // 2):
+        re = sum([rho[j] * tw(j * k)[0] for j in range(N)], z3.RealVal(0)); im = sum([rho[j] * tw(j * k)[1] for j in range(N)], z3.RealVal(0))
+        Y.append((Z[k][0] * re - Z[k][1] * im, Z[k][0] * im + Z[k][1] * re))
+    want = []
+    for j in range(n):
+        v = Y[0][0]
+        for k in range(1, N // 2):
+            c, s_ = tw(-j * k); v = v + 2 * (Y[k][0] * c - Y[k][1] * s_)
+        want.append(sc * v)
+    zs = [c for zz in Z for c in zz]
+    paths = run_paths(ex, st, 'e_wake', [R['field']])
+    for pi, s1 in enumerate(paths):
+        s1.frames = []; account(res, ex, mod, [s1])
+        got = get_reals(ex, s1, s1.retval, n); pc = list(s1.pc)
+        def cex(m, got=got, pc=pc):
+            s = z3.Solver(); s.add(*pc); s.add(*[z3.And(v >= 0, v <= 4) for v in P]); s.add(*[z3.And(v >= -4, v <= 4) for v in zs])
+            s.add(z3.Or(*[z3.Or(a - b > sc / 100, b - a > sc / 100) for a, b in zip(got, want)]))      # a deviation single precision resolves: 1 % of the wake of a unit charge at unit impedance
+            r, dt = solve(s, 30000); res.queries += 1; res.solver_s += dt
+            if r == z3.sat: m = s.model()
+            return {'replay': 'wake', 'exact': True, 'n': n, 'N': N, 'spacing': 0, 'buckets': [0], 'rho': [mval(m, v) for v in P], 'z': [mval(m, c) for c in zs], 'resolved': r == z3.sat}
+        prove(res, 'n=%d N=%d, exact DFT, path %d of %d of wakePotential: wake[x] == scaling * c2r( Z_k * r2c(profile)_k for k < N/2, 0 above )[x] for every profile and complex impedance (all %d cells)' % (n, N, pi + 1, len(paths), n),
+              pc, z3.Or(*[a != b for a, b in zip(got, want)]), key='wake-exact-dft', cex_fn=cex)
+    witness(res, 'exact wake mentions Z_1 (N=%d)' % N, [], z3.BoolVal(occurs(want[0], Z[1][0])))
+
 FFT_PREP = ['_ZN3fft10prepareFFTEmPfPA2_f', '_ZN3fft10prepareFFTEmPA2_fPf']
 def job_scaling(res, n, N, spacing, buckets):
     """the constructor (run from IR, FFTW planning stubbed) computes wakescaling == Ib*dt*c/(scale_m*delta_p*sigma_delta*E0)/N for symbolic machine parameters"""
@@ -104,6 +145,7 @@ def replayer(bld):
         n, N, sp, bk = c['n'], c['N'], c['spacing'], c['buckets']; nb = len(bk)
         import random as _r; rr = _r.Random(11)
         rho = [float(v) if v else rr.uniform(0.1, 1) for v in c['rho']]; z = [float(v) if v else rr.uniform(-1, 1) for v in c['z']]
+        if c.get('exact'): rho = [float(v) for v in c['rho']]; z = [float(v) for v in c['z']]      # exact-DFT models: the zeros are part of the counterexample
         for k in range(N // 2 + 1, N): z[2 * k] = z[2 * k + 1] = 0.0
         o = native_run(bld, {'n': n, 'N': N, 'spacing': sp, 'buckets': bk, 'ops': ['w'], 'prof0': rho, 'z': z}, 'c06')
         train = np.zeros(N)
@@ -127,6 +169,7 @@ def main(tier):
         cfgs += [(3, 12, 4, (0, 2)), (3, 11, 3, (2, 0, 1)), (3, 12, 3, (0, 1, 3)), (5, 16, 5, (1, 2)), (5, 20, 6, (0, 2)), (5, 17, 6, (2, 0)), (6, 24, 6, (3, 1)), (6, 32, 7, (0, 2)), (8, 50, 9, (1, 0)), (4, 64, 5, (3, 1)), (6, 40, 7, (2, 0, 4))]
     import c18
     jobs = [(job_structure, c) for c in cfgs] + [(job_scaling, c) for c in cfgs[:3]]
+    jobs += [(job_exact, c) for c in (((3, 4), (5, 8)) if tier == 'quick' else ((2, 4), (3, 4), (4, 4), (3, 8), (4, 8), (5, 8), (6, 8), (8, 8)))]
     # the structure above is that of a call on a fresh object; that a later call computes the same (also where FFTW's c2r plan uses its input as scratch space, N = 24, and for an impedance table ending below the top frequency) is the history obligation
     jobs += [(c18.job_history, (4, 24, 0, (0,), 2, 400)), (c18.job_history, (4, 24, 5, (1, 0), 1, 0))]
     import c17 as _c17
